@@ -1,10 +1,10 @@
 --------------------------- MODULE Judge_Rules ---------------------------
 (* Constant-mode judge (code -> model) for recordings of the real library.  *)
 (* FILE = ndjson, MODE selects the record shape:                            *)
-(*  "tuples": {id, rule, lo, hi, kind, n, far, cps, carrier, violated}       *)
+(*  "tuples": {id, rule, lo, hi, kind, n, far, cps, eps, carrier, violated}       *)
 (*     one real call with one interval rule; the logged verdict must be     *)
 (*     Violated(rule, lo, hi, Measure(kind, value)) - whatever the carrier. *)
-(*  "agree": {id, kind, n, far, cps,                                        *)
+(*  "agree": {id, kind, n, far, cps, eps,                                        *)
 (*            rules: <<[key, lo, hi, tok, iv]>>,                            *)
 (*            obs:   <<[c, toks, bodies]>>}                                 *)
 (*     one value under one rule list sent through several carriers; toks =  *)
@@ -19,7 +19,7 @@ Recs == ndJsonDeserialize(IOEnv.FILE)
 Mode == IOEnv.MODE
 
 ToSet(s) == {s[i] : i \in DOMAIN s}
-ValOf(r) == [n |-> r.n, far |-> r.far, cps |-> r.cps]
+ValOf(r) == [n |-> r.n, far |-> r.far, cps |-> r.cps, eps |-> r.eps]
 
 TupleOK(r) == r.violated = Violated(r.rule, r.lo, r.hi, Measure(r.kind, ValOf(r)))
 
